@@ -1,6 +1,7 @@
 import Req.Driver.Proto
 import Req.H1.Response
 import Req.C03.H2Cut
+import Req.C03.H2Pool
 import Req.C03.H3Cut
 /-! Driver lanes of C03.
 
@@ -91,7 +92,7 @@ def laneH2 : List String → String
     | some isHead, some sid, some evs =>
       if mode != "s" && mode != "a" then "bad-op" else
       let x := ((H2X.init sid isHead).run (evs.map .ev)).2
-      let dials := if x.canTakeNewRequest && x.inPool then " dials=1" else " dials=2"
+      let dials := " dials=" ++ toString (h2DialsAfterNext x)
       (match x.outcome 512 with
        | .pending => "pending"
        | .callFailed true => "retry"
